@@ -135,6 +135,7 @@ func Check(prop, tier string) int {
 	b := common.Prepare(prop, false)
 	st := &Stats{}
 	n, budget := sizes(tier)
+	n = common.CasesOverride(n)
 	deadline := common.NewDeadline(budget)
 	scratch := filepath.Join(b.Root, "cases")
 	os.MkdirAll(scratch, 0777)
@@ -196,6 +197,17 @@ func Check(prop, tier string) int {
 	}
 	for _, s := range skipSamples {
 		fmt.Println("skipped workload:", s)
+	}
+	if os.Getenv("VERIF_LOG") != "" {
+		var lines []string
+		for i, r := range results {
+			if r.c == nil {
+				continue
+			}
+			lines = append(lines, fmt.Sprintf("== case %d skipped=%q", i, r.out.Skipped))
+			lines = append(lines, r.out.Log...)
+		}
+		common.WriteRunLog(lines)
 	}
 	if usable == 0 {
 		writeEvidence(prop, tier, seed, start, st, ran, usable, execs, points, skipped, samples, 0, b, "no usable workload")
